@@ -244,6 +244,7 @@ def run(ctx, chk):
     for m in sorted(states):
         ks = set()
         bad = None
+        nonexit = []
         for p in all_paths[m]:
             if p['status'] != 'loopback':
                 continue
@@ -251,28 +252,30 @@ def run(ctx, chk):
             dstores = [v for n, v in p['stores'] if n == 'current_mode_dots']
             lstores = [v for n, v in p['stores'] if n == 'current_line']
             mstores = [v for n, v in p['stores'] if n == 'current_mode']
-            exit_dec = None
-            for d in p['r'].state.decisions:
-                t = d[0]
-                if t[0] == 'o' and t[2] in ('uge', 'ult', 'ugt', 'ule') and 'current_mode_dots' in fmt(t) and t[4][0] == 'c':
-                    if t[2] == 'uge':
-                        exit_dec = (t[4][2], env.const_of(t))
-                        break
-            if exit_dec is None:
-                bad = 'a step is not guarded by a "dots >= K" test'
+            # The threshold is read off what the step does, not how the test is written: a mode exit is a step that
+            # takes K clocks off the counter a second time (dots' = dots + 4 - K) and its path condition must imply
+            # dots + 4 >= K; every other step must imply dots + 4 < K (checked below, once K is known)
+            from ..affine import diff_const
+            from .. import bvproof as _bp
+            if not dstores:
+                bad = 'a step does not advance the dot counter'
                 continue
-            k, taken = exit_dec
-            if taken == 1:
+            d0 = dstores[0]
+            if len(dstores) >= 2:
+                dk = diff_const(dstores[-1], d0, env, 64)
+                if dk is None:
+                    dk = _bp.const_diff_under(dstores[-1], d0, env, 64)
+                if dk is None:
+                    bad = 'mode exit leaves dots = %s, not dots + 4 - K for a constant K' % fmt(dstores[-1])[:80]
+                    continue
+                k = (-dk) & T.mask(64)
+                ge = O(1, 'uge', d0, C(64, k))
+                if not (env.const_of(ge) == 1 or _bp.equal_under(ge, C(1, 1), env, 1) is True):
+                    bad = 'a step takes %d clocks off the dot counter without a "dots >= %d" guard' % (k, k)
+                    continue
                 ks.add(k)
-                # dots' must equal dots + 4 - k
-                if len(dstores) < 2:
-                    bad = 'mode exit without "dots -= K"'
-                else:
-                    from ..affine import diff_const
-                    d0 = dstores[0]
-                    if diff_const(dstores[-1], d0, env, 64) != ((-k) & T.mask(64)):
-                        bad = 'mode exit subtracts %s, guard tests %d' % (fmt(dstores[-1]), k)
             else:
+                nonexit.append((d0, env))
                 if lstores or mstores:
                     bad = 'LY or mode changes on a step that is not a mode exit'
             for lv in lstores:
@@ -285,6 +288,14 @@ def run(ctx, chk):
                     if linesym and not (env.av(linesym[0]).is_const() and env.av(linesym[0]).lo == 153):
                         bad = 'LY wraps to 0 from a line other than 153 (%s)' % env.av(linesym[0])
         key = 'K:mode%d' % m
+        if not bad and len(ks) == 1:
+            from .. import bvproof as _bp
+            kk = next(iter(ks))
+            for d0, env in nonexit:
+                lt = O(1, 'ult', d0, C(64, kk))
+                if not (env.const_of(lt) == 1 or _bp.equal_under(lt, C(1, 1), env, 1) is True):
+                    bad = 'a step stays in the mode although dots + 4 may have reached %d' % kk
+                    break
         if bad:
             chk.fail('C14.2', key, 'mode %d: %s' % (m, bad), file, None)
         elif len(ks) != 1:
@@ -371,9 +382,40 @@ def run(ctx, chk):
             if stat == 1 and not mstores and not lstores:
                 chk.fail('C14.4', 'stat-spurious:mode%d:path%d' % (m, i), 'STAT requested on a step without mode or LY change',
                          file, None)
+            elif stat == 1:
+                # a request needs a reason that belongs to this step: a mode that was entered now with its enable set,
+                # or an LY that changed now, equals LYC, with the coincidence enable set
+                why_mode = bool(mstores) and fm.is_const() and fm.lo in (0, 1, 2) and \
+                    decision_value(p, 'interrupt_on_mode_%d' % fm.lo) == 1
+                why_lyc = False
+                if lstores:
+                    newline = lstores[-1]
+                    for d in p['r'].state.decisions:
+                        t = d[0]
+                        if t[0] == 'o' and t[2] in ('eq', 'ne') and 'ly_compare' in fmt(t):
+                            other = t[4] if 'ly_compare' in fmt(t[3]) else t[3]
+                            if (other == newline or (env.const_of(other) is not None and
+                                                     env.const_of(other) == env.const_of(newline))) and \
+                                    env.const_of(t) == (1 if t[2] == 'eq' else 0) and decision_value(p, 'interrupt_on_lyc') == 1:
+                                why_lyc = True
+                if not why_mode and not why_lyc:
+                    chk.fail('C14.4', 'stat-spurious:mode%d:path%d' % (m, i), 'STAT requested on a step (mode %d -> %s, LY -> %s) '
+                             'although no mode with its enable set is entered and LY == LYC with its enable does not hold: '
+                             'the request repeats a condition that did not change in this step'
+                             % (m, fm.lo if fm.is_const() else fm, ('%d' % fl.lo) if fl.is_const() else '%d..%d' % (fl.lo, fl.hi)),
+                             file, None)
     if not vb_paths:
         chk.fail('C14.3', 'none', 'no step of the schedule requests VBlank', file, None)
     register_rules(ctx, chk, facts, prog, file)
+    # the requests a STAT / LYC write produces are merged into IF by IO::set_byte
+    V_ = 'devices::video::VideoState::'
+    res = register_write_requests_reach_if(facts, prog, [V_ + 'set_lcd_status', V_ + 'set_ly_compare'])
+    for cal, bad in sorted(res.items()):
+        k4 = 'write-routing:' + cal.split('::')[-1]
+        if bad:
+            chk.fail('C14.4', k4, '%s: %s' % (cal, bad), 'src/devices/io.rs', None)
+        else:
+            chk.ok('C14.4', k4)
     # ---- rule 5
     uniform = True
     dec_ok = False
